@@ -111,11 +111,11 @@ def replay_state(chk, st, cplx, names, counter):
                                       'speriodogram(x as %s, NFFT=%d, window=%s) with x*w=%s is not |DFT(x*w)|^2/N: %s' % (ename, nfft, name, y.tolist(), bad),
                                       dict(case, entry=ename, observed=res))
                 if ename != 'array':
-                    okc, vc = call_guard(lambda: np.array(Periodogram(xin, window=name, NFFT=nfft).psd))
+                    okc, vc = call_guard(lambda: np.array(Periodogram(xin, window=name, NFFT=nfft, scale_by_freq=False, detrend=None).psd))
                     if not okc or cmp_vec(vc, exp, tol=1e-7):
                         chk.violation('C01:Periodogram:%s:values:%s' % (mode, ename),
                                       'Periodogram(x as %s, window=%s, NFFT=%d).psd is not |DFT(x*w)|^2/N' % (ename, name, nfft), dict(case, entry=ename))
-            ok, obj = call_guard(lambda: Periodogram(x.copy(), window=name, NFFT=nfft))
+            ok, obj = call_guard(lambda: Periodogram(x.copy(), window=name, NFFT=nfft, scale_by_freq=False, detrend=None))
             if ok:
                 ok, v = call_guard(lambda: np.array(obj.psd))
             if not ok:
@@ -134,7 +134,7 @@ def replay_state(chk, st, cplx, names, counter):
                         continue
                     ok1, _ = call_guard(setattr, obj, attr, val)
                     ok2, live = call_guard(lambda: np.array(obj.psd))
-                    ok3, fresh = call_guard(lambda: np.array(Periodogram(x.copy(), window=obj.window, NFFT=obj.NFFT).psd))
+                    ok3, fresh = call_guard(lambda: np.array(Periodogram(x.copy(), window=obj.window, NFFT=obj.NFFT, scale_by_freq=False, detrend=None).psd))
                     if ok1 and ok2 and ok3:
                         badl = cmp_vec(live, fresh, tol=1e-9, name='psd after %s assignment' % attr)
                         if badl:
@@ -235,7 +235,7 @@ def obs_events(chk):
         else:
             ev['skip'] = False
             ok, p = call_guard(speriodogram, x.copy(), NFFT=nfft, detrend=False, scale_by_freq=False, window=name)
-            ok2, obj = call_guard(lambda: np.array(Periodogram(x.copy(), window=name, NFFT=nfft).psd))
+            ok2, obj = call_guard(lambda: np.array(Periodogram(x.copy(), window=name, NFFT=nfft, scale_by_freq=False, detrend=None).psd))
             xr = x.real.copy()
             ok3, pr = call_guard(speriodogram, xr.copy(), NFFT=nfft, detrend=False, scale_by_freq=False, window=name)
             ok4, pc = call_guard(speriodogram, xr.astype(complex), NFFT=nfft, detrend=False, scale_by_freq=False, window=name)
@@ -291,7 +291,7 @@ def obs_events(chk):
         exp = P if cplx else P[:nfft // 2 + 1]
         allowed = allowed if cplx else allowed[:nfft // 2 + 1]
         for form, f in (('function', lambda: speriodogram(x.copy(), NFFT=nfft, detrend=False, scale_by_freq=False, window=name)),
-                        ('class', lambda: np.array(Periodogram(x.copy(), window=name, NFFT=nfft).psd))):
+                        ('class', lambda: np.array(Periodogram(x.copy(), window=name, NFFT=nfft, scale_by_freq=False, detrend=None).psd))):
             ev = {'ev': 'bins', 'N': N, 'nfft': nfft, 'window': name, 'form': form, 'cplx': cplx}
             ok, p = call_guard(f)
             ev['raised'] = not ok
